@@ -38,17 +38,20 @@ LEVEL_NOTE = ('Trusted: mc/gf2.py (self-tested), the size-family table of DESIGN
               '> 10, reuse orders other than ascending/descending, configurations outside the star on sizes above '
               'n_full (see RULE), decoder parameters outside the listed ones. A decoder rejecting a Python-list '
               'syndrome by raising is counted (list_rejected), not reported: the declared parameter type is '
-              'np.ndarray.')
+              'np.ndarray. A non-zero answer to the zero syndrome from an incomplete decoder (sweep-match, X-cube, '
+              'MBP) is counted (zero_syndrome_nonzero_correction_incomplete_decoder), not reported: the property '
+              'states the trivial-correction clause for the complete decoders.')
 RULE = ('decoders = panqec.config.DECODERS; classes = allowed_codes (None -> all 16, each also with every code '
-        'deformation name/axis); sizes = DESIGN §3 family with n <= n_max[decoder] (always at least the smallest '
-        'family size). Profile by n: n <= n_full: FULL product {4 noise directions x (no deformation + every noise '
-        'deformation)} x rates x parameter sets x 3 dtypes x 3 modes; n <= n_star: STAR around the base point '
-        '(depolarising, undeformed noise, p=0.1, uint8, first parameter set) varying one axis at a time (all '
-        'noises; all rates; all dtypes; all parameter sets), 3 modes each; otherwise BASE point with all dtypes, 3 '
-        'modes. Every point is crossed with the whole syndrome set: all 2^rank syndromes if rank <= 10, else the '
-        'distinct syndromes of all Pauli errors of weight <= w (w = 2 for n <= n_w2 else 1) plus the zero '
-        'syndrome. A sub-case (point, mode, dtype, syndrome) is distinct by construction and non-trivial when the '
-        'syndrome is non-zero and the decode was executed (counted from the set of executed sub-cases).')
+        'deformation name/axis); sizes = DESIGN §3 family with n <= n_max[decoder] and L <= l_max (always at least '
+        'the smallest family size of a class unless it exceeds n_hard). Profile by n: n <= n_full: FULL product {4 '
+        'noise directions x (no deformation + every noise deformation)} x 3 rates x parameter sets x 3 dtypes x 3 '
+        'modes; n <= n_star: STAR around the base point (depolarising undeformed noise, p=0.1, uint8, first '
+        'parameter set) varying one axis at a time (all noises; all rates; all dtypes; all parameter sets), 3 modes '
+        'each; otherwise BASE: the base point in 3 modes plus int64 and list in mode reused-asc. Every point is '
+        'crossed with the whole syndrome set: all 2^rank syndromes if rank <= 10, else the distinct syndromes of all '
+        'Pauli errors of weight <= w (w = 2 for n <= n_w2 else 1) plus the zero syndrome. A sub-case (point, mode, '
+        'dtype, syndrome) is distinct by construction and non-trivial when the syndrome is non-zero and the decode '
+        'was executed (counted from the set of executed sub-cases).')
 ASSUMPTIONS = [
     'size family per class as fixed in DESIGN.md §3; Color666ToricCode with L_x != L_y skipped (finding D12b)',
     'GF(2) reference algebra mc/gf2.py; a valid syndrome is the reference syndrome of an explicit Pauli error',
@@ -56,6 +59,7 @@ ASSUMPTIONS = [
     'measure_syndrome_mismatch and the syndrome is skipped)',
     'CSS-only decoders are not handed deformed (non-CSS) code objects: their ValueError is by design (DESIGN C05)',
     'a Python list is outside the declared np.ndarray interface: rejection by exception is counted, not reported',
+    'the trivial-syndrome clause of the property binds the complete decoders (Matching, UnionFind, BP-OSD) only',
 ]
 
 COMPLETE = ('MatchingDecoder', 'UnionFindDecoder', 'BeliefPropagationOSDDecoder')
@@ -70,6 +74,10 @@ BASE_RATE = 0.1
 DTYPES = ['uint8', 'int64', 'list']
 MODES = ['fresh', 'reused-asc', 'reused-desc']
 RANK_ALL = 10
+# The property attaches "the trivial syndrome yields the trivial correction" to the complete decoders; for the
+# others (sweep-match, X-cube, MBP) a non-zero answer to the zero syndrome is counted in the evidence
+# (zero_syndrome_nonzero_correction_incomplete_decoder) and becomes a violation only when this is True.
+ZERO_RULE_ALL_DECODERS = False
 
 PARAMS = {
     'BeliefPropagationOSDDecoder': [
@@ -90,7 +98,8 @@ BOUNDS = {
     'quick': {
         'l_max_2d': 4, 'l_max_3d': 3, 'rank_all': RANK_ALL,
         'MatchingDecoder': {'n_max': 20, 'n_hard': 100, 'n_full': 6, 'n_star': 9, 'n_w2': 16, 'split': False},
-        'UnionFindDecoder': {'n_max': 18, 'n_hard': 100, 'n_full': 0, 'n_star': 8, 'n_w2': 0, 'split': True},
+        'UnionFindDecoder': {'n_max': 18, 'n_hard': 100, 'n_full': 0, 'n_star': 8, 'n_w2': 0, 'split': True,
+                             'base_dtypes': False},
         'SweepMatchDecoder': {'n_max': 24, 'n_hard': 100, 'n_full': 0, 'n_star': 0, 'n_w2': 24, 'split': True,
                               'classes': {'Planar3DCode': {'n_w2': 12}}},
         'RotatedSweepMatchDecoder': {'n_max': 16, 'n_hard': 100, 'n_full': 0, 'n_star': 0, 'n_w2': 10,
@@ -105,23 +114,25 @@ BOUNDS = {
     },
     'thorough': {
         'l_max_2d': 9, 'l_max_3d': 4, 'rank_all': RANK_ALL,
-        'MatchingDecoder': {'n_max': 100, 'n_hard': 100, 'n_full': 18, 'n_star': 50, 'n_w2': 30, 'split': False},
-        'UnionFindDecoder': {'n_max': 50, 'n_hard': 100, 'n_full': 8, 'n_star': 18, 'n_w2': 18, 'split': True},
-        'SweepMatchDecoder': {'n_max': 81, 'n_hard': 100, 'n_full': 12, 'n_star': 36, 'n_w2': 24, 'split': True},
+        'MatchingDecoder': {'n_max': 100, 'n_hard': 100, 'n_full': 9, 'n_star': 50, 'n_w2': 20, 'split': False},
+        'UnionFindDecoder': {'n_max': 50, 'n_hard': 100, 'n_full': 8, 'n_star': 12, 'n_w2': 18, 'split': True},
+        'SweepMatchDecoder': {'n_max': 81, 'n_hard': 100, 'n_full': 12, 'n_star': 24, 'n_w2': 24, 'split': True,
+                              'classes': {'Planar3DCode': {'n_w2': 12}}},
         'RotatedSweepMatchDecoder': {'n_max': 40, 'n_hard': 100, 'n_full': 10, 'n_star': 16, 'n_w2': 16,
                                      'split': True,
-                                     'classes': {'RotatedToric3DCode': {'n_max': 16, 'n_full': 4, 'n_star': 8}}},
+                                     'classes': {'RotatedToric3DCode': {'n_max': 10, 'n_full': 4, 'n_star': 8}}},
         'XCubeMatchingDecoder': {'n_max': 81, 'n_hard': 100, 'n_full': 24, 'n_star': 54, 'n_w2': 24,
                                  'split': True},
-        'BeliefPropagationOSDDecoder': {'n_max': 100, 'n_hard': 100, 'n_full': 12, 'n_star': 40, 'n_w2': 24,
+        'BeliefPropagationOSDDecoder': {'n_max': 100, 'n_hard': 100, 'n_full': 8, 'n_star': 30, 'n_w2': 12,
                                         'split': False},
-        'MemoryBeliefPropagationDecoder': {'n_max': 24, 'n_hard': 24, 'n_full': 5, 'n_star': 12, 'n_w2': 8,
+        'MemoryBeliefPropagationDecoder': {'n_max': 24, 'n_hard': 24, 'n_full': 5, 'n_star': 6, 'n_w2': 8,
                                            'split': True},
         'default': _DEF_T,
     },
 }
 BUDGET_S = {'quick': 600, 'thorough': 5400}
-MAX_VIOLATIONS_PER_CASE = 6
+CHUNK = 4
+MAX_VIOLATIONS_PER_CASE = 8
 
 
 # ------------------------------------------------------------------ cases
@@ -173,6 +184,7 @@ def cases(tier, seed):
                     noises = _noises(cls)
                     base_noise = noises[0]
                     points = []          # (noise, params, rates, dtypes, modes)
+                    profile = 'FULL' if n <= db['n_full'] else 'STAR' if n <= db['n_star'] else 'BASE'
                     if n <= db['n_full']:
                         for nz in noises:
                             for p in plist:
@@ -187,18 +199,27 @@ def cases(tier, seed):
                             points.append((base_noise, p, [BASE_RATE], ['uint8'], MODES))
                     else:
                         points.append((base_noise, plist[0], [BASE_RATE], ['uint8'], MODES))
-                        points.append((base_noise, plist[0], [BASE_RATE], DTYPES[1:], ['reused-asc']))
+                        if db.get('base_dtypes', True):
+                            points.append((base_noise, plist[0], [BASE_RATE], DTYPES[1:], ['reused-asc']))
                     for nz, p, rates, dtypes, modes in points:
                         if db['split']:
                             parts = [([dt], [mo]) for dt in dtypes for mo in modes]
                         else:
                             parts = [(dtypes, modes)]
                         for dts, ms in parts:
-                            out.append({'decoder': dname, 'cfg': cfg, 'n': n, 'noise': nz, 'params': p,
-                                        'rates': list(rates), 'dtypes': list(dts), 'modes': list(ms),
-                                        'w': w, 'rank_all': b['rank_all']})
-    # simplest first: by qubit number, then decoder, then the rest in construction order
-    out.sort(key=lambda c: (c['n'], c['decoder']))
+                            out.append({'decoder': dname, 'cfg': cfg, 'n': n, 'profile': profile,
+                                        'noise': nz, 'params': p, 'rates': list(rates),
+                                        'dtypes': list(dts), 'modes': list(ms), 'w': w,
+                                        'rank_all': b['rank_all']})
+    # simplest first: by qubit number; within one qubit number the decoders take turns (the i-th case of every
+    # decoder before the (i+1)-th of any), each decoder's cases in construction order
+    turn = {}
+    for c in out:
+        k = (c['n'], c['decoder'])
+        c['_turn'] = turn[k] = turn.get(k, -1) + 1
+    out.sort(key=lambda c: (c['n'], c['_turn'], c['decoder']))
+    for c in out:
+        del c['_turn']
     return out
 
 
@@ -305,7 +326,10 @@ def _judge(corr, n, H, s_int, complete):
     for i in np.flatnonzero(a):
         c |= 1 << int(i)
     if s_int == 0 and c != 0:
-        return 'zero-syndrome-nonzero-correction', {'correction': gf2.int_to_pauli_string(c, n)}, c
+        kind = 'zero-syndrome-nonzero-correction'
+        if not (complete or ZERO_RULE_ALL_DECODERS):
+            kind = 'info:' + kind
+        return kind, {'correction': gf2.int_to_pauli_string(c, n)}, c
     if complete:
         got = gf2.syndrome(H, c, n)
         if got != s_int:
@@ -423,7 +447,11 @@ def eval_case(case):
             outcomes.add('%s|raises|%s' % (dname, type(exc).__name__))
             return
         kind, detail, c = _judge(corr, n, H, s_int, complete)
-        if kind is not None:
+        if kind is not None and kind.startswith('info:'):
+            # not demanded of the incomplete decoders by the property text: counted, not reported
+            bump('zero_syndrome_nonzero_correction_incomplete_decoder')
+            outcomes.add('%s|%s' % (dname, kind))
+        elif kind is not None:
             report(kind, mode, dtype, rate, idx, detail)
             outcomes.add('%s|%s' % (dname, kind))
         else:
@@ -453,7 +481,20 @@ def eval_case(case):
                         one(dec, mode, dtype, rate, idx)
 
     res['nontrivial'] = sum(1 for t in executed if t[3] != 0)
-    viols = list(found.values())
+    # representatives first: one per (kind, exc), then one per (kind, exc, mode), then the dtype variants --
+    # each group in order of discovery (= simplest first)
+    viols, taken = [], set()
+    for depth in (2, 3, 4):
+        seen = set()
+        for fk, v in found.items():
+            g = (fk[0], fk[3], fk[1], fk[2])[:depth]
+            if fk in taken or g in seen:
+                continue
+            if depth < 4 and any(((t[0], t[3], t[1], t[2])[:depth]) == g for t in taken):
+                continue
+            seen.add(g)
+            taken.add(fk)
+            viols.append(v)
     bump('violation_keys_dropped_by_per_case_cap', max(0, len(viols) - MAX_VIOLATIONS_PER_CASE))
     res['violations'] = viols[:MAX_VIOLATIONS_PER_CASE]
     res['outcomes'] = sorted(outcomes)[:50]
